@@ -193,16 +193,8 @@ mod verif_kani {
             if k < 10 { assert!(unsafe { ctl::OPENS } == k + 1, "new/other-error-is-reported-at-once"); }
         }
     }
-    macro_rules! sled_new_k {
-        ($($name:ident $k:expr, $u:expr);*) => { $(
-            #[kani::proof]
-            #[kani::unwind($u)]
-            #[kani::stub(std::fmt::format, no_text)]
-            #[kani::stub(std::thread::sleep, no_sleep)]
-            fn $name() { sled_new_case($k); }
-        )* };
-    }
-    // unwind: the recursion depth is K + 1 when the branch conditions fold; otherwise the unwinding assertion fails (undecided)
-    sled_new_k!(sled_new_k0 0, 10; sled_new_k1 1, 10; sled_new_k2 2, 10; sled_new_k3 3, 10; sled_new_k4 4, 10; sled_new_k5 5, 10;
-                sled_new_k6 6, 10; sled_new_k7 7, 11; sled_new_k8 8, 12; sled_new_k9 9, 13; sled_new_k10 10, 14);
+    // NOT REGISTERED: `sled_new_case(0)` alone ran 28 min and then exhausted CBMC's memory (the guard `e.to_string().contains(..)`
+    // does not fold, so every level of the retry recursion is explored with the whole fmt machinery).  Kept for a stronger back end.
+    #[allow(dead_code)]
+    fn keep() { let _ = sled_new_case; }
 }
